@@ -194,6 +194,22 @@ def gen_op(rnd, s, u):
         if r2 < 0.7:
             return ['linkview.use', slot, [vk + '.append', vt, x]]
         return ['linkview.use', slot, [vk + '.remove_all', vt, {'kind': 'ids', 'ids': sorted({s['T'][q]['id'] for q in (cur or [x])}, key=repr)[:2], 'as': 'kw'}]]
+    # two newcomers that share an id in one replacement list, kept children listed behind them: the call is refused, and must
+    # be refused before anything was taken apart
+    if rnd.random() < 0.02:
+        byid_ = {}
+        for k in T:
+            byid_.setdefault(repr(s['T'][k]['id']), []).append(k)
+        tw_ = [v for v in byid_.values() if len(v) >= 2]
+        hs_ = [h_ for h_ in nonempty]
+        if tw_ and hs_:
+            h_ = rnd.choice(hs_)
+            a_, b_ = rnd.sample(rnd.choice(tw_), 2)
+            cur_ = list(_hl(s, h_))
+            L_ = [a_, b_] + rnd.sample(cur_, rnd.randint(1, len(cur_)))
+            if rnd.random() < 0.3:
+                rnd.shuffle(L_)
+            return rnd.choice([['children=', list(h_), L_, rnd.choice(['list', 'tuple', 'gen'])], ['floordiv', list(h_), [a_, b_], False]])
     # two distinct objects with equal ids on the same end of a link (mirror updates must go by object, not by id)
     if rnd.random() < 0.04:
         byid = {}
